@@ -165,6 +165,85 @@ func zzC09_udp() {
 	symCover("closed")
 }
 
+// the remaining stages of the property's list: queued behind the parallel-request limiter (limit 1, another
+// request in flight), and in the middle of a block-wise upload or download (first block exchanged, then silence)
+func zzC09_udp_more() {
+	s := zzNewSession()
+	stage := symChoose("stage", 3) // 0 limiter queue, 1 mid upload, 2 mid download
+	end := symChoose("end", 2)
+	cfg := zzConnCfg{midSeed: 1000, nstart: 4, maxRetrans: 4, ackTimeout: 1 << 30}
+	if stage == 0 {
+		cfg.limit = 1
+	} else {
+		cfg.blockwise = true
+	}
+	cc := zzNewConn(s, cfg)
+	symSetNow(time.Unix(0, 1<<41))
+	blocker := &zzCall{token: message.Token{0xBB}}
+	if stage == 0 {
+		go zzDo(cc, blocker)
+		zzWaitWritten(s, 1)
+		symIdle()
+	}
+	base := len(s.written)
+	ctx, cancel := context.WithCancel(context.Background())
+	defer cancel()
+	x := &zzOp{}
+	go func() {
+		req := pool.NewMessage(ctx)
+		req.SetToken(message.Token{0xA1, 0xA2})
+		_ = req.SetPath("/big")
+		if stage == 1 {
+			req.SetCode(codes.PUT)
+			req.SetContentFormat(message.AppOctets)
+			req.SetBody(bytesReader(zzBigBody(40, 0x10)))
+		} else {
+			req.SetCode(codes.GET)
+		}
+		_, x.err = cc.Do(req)
+		x.done = true
+	}()
+	switch stage {
+	case 0:
+		symIdle()
+		symAssert(!x.done && len(s.written) == base, "the request waits for the only parallel-request slot")
+		symCover("queued-behind-limiter")
+	case 1, 2:
+		zzWaitWritten(s, base+1)
+		w := s.written[base]
+		var m *pool.Message
+		if stage == 1 {
+			m = zzRequest(message.Acknowledgement, w.mid, codes.Continue, w.token, nil)
+			m.SetOptionUint32(message.Block1, zzBlockOpt(0, true))
+		} else {
+			m = zzRequest(message.Acknowledgement, w.mid, codes.Content, w.token, zzBigBody(16, 0x70))
+			m.SetOptionUint32(message.Block2, zzBlockOpt(0, true))
+			_ = m.SetETag([]byte{1, 2})
+		}
+		d, _ := m.MarshalWithEncoder(coder.DefaultCoder)
+		_ = cc.Process(nil, append([]byte(nil), d...))
+		zzWaitWritten(s, base+2) // the next block is requested / sent; the peer says nothing more
+		symIdle()
+		symAssert(!x.done, "the transfer is still in progress")
+		symCover("mid-blockwise")
+	}
+	if end == 0 {
+		cancel()
+		symCover("context-cancelled")
+	} else {
+		symAssert(cc.Close() == nil, "Close succeeds")
+		symCover("connection-closed")
+	}
+	symWaitUntil(func() bool { return x.done })
+	symCover("returned")
+	symAssert(x.err != nil, "an operation that never got its answer returns an error")
+	symAssert(cc.Close() == nil, "Close succeeds")
+	if stage == 0 {
+		symWaitUntil(func() bool { return blocker.done })
+	}
+	symIdle()
+}
+
 func zzC09_udp_selftest() {
 	s := zzNewSession()
 	cc := zzNewConn(s, zzConnCfg{midSeed: 1000, nstart: 1, maxRetrans: 4, ackTimeout: 1 << 30})
